@@ -99,6 +99,17 @@ def run(chk, replay=None):
             # they do not hold the theorem is silent and the verdict rests on check_replay + the row comparison alone)
             chk.feat("sched_ok-accepts" if m.get("schedok") == 1 else "sched_ok-rejects")
             chk.feat("extra_ok-accepts" if m.get("extraok") == 1 else "extra_ok-rejects")
+            # the hypotheses of the final capstone C01_compiled_replay_closed about things outside the models, evaluated on this instance: the partitioner's
+            # contract (check_mono, tmpl_ok, sup_covered on Graph._Gs_monomorphism), to_timings(model) = rex's Timings, windows >= 1, ring sizes >= buffer_need
+            if m.get("nmono", 0) > 0:
+                ring_ok = all(m["need"].get(c, 0) <= rr["ring"].get(cc["out"], 1) for c, cc in j["cfg"]["conns"].items()) if rr.get("ring") else False
+                full = (m.get("checkmono") == 1 and m.get("tmplok") == 1 and m.get("supcov") == 1 and m.get("ttmatch") == 1 and ring_ok
+                        and all(cc["window"] >= 1 for cc in j["cfg"]["conns"].values()))
+                chk.feat("final-capstone-hypotheses-hold" if full else
+                         f"final-capstone-hypotheses:mono={m.get('checkmono')},tmpl={m.get('tmplok')},sup={m.get('supcov')},ttmatch={m.get('ttmatch')},ring={int(ring_ok)}")
+                if full and (m.get("check") != 1 or m.get("extraok") != 1 or m.get("schedok") != 1 or m.get("checkreplay") != 1):
+                    chk.broke("SchedOk.compiled_replay_closed(derived checks)", f"episode {e}: the partitioner contract holds and to_timings matches, but a derived check rejects: "
+                              f"check_schedule={m.get('check')} extra_ok={m.get('extraok')} sched_ok={m.get('schedok')} check_replay={m.get('checkreplay')}")
             if j["cfg"].get("adaptive_params"): chk.feat("adaptive-params(runtime-vs-runtime only)"); continue
             d = cl.compare_rows(j["cfg"], rr["episodes"][e], m)
             if d: chk.broke("correspondence:M3-vs-Graph", f"{d} | job={j['id']}")
